@@ -296,6 +296,21 @@ def run_string(env, case):
         classes.append("accept" if got else "reject")
         if honest and not mutated:
             env.require(got == 1, "honest signature rejected")
+            # every non-canonical re-encoding s_j + n (fits in 32 bytes for the prover-chosen small scalars) of this VALID
+            # signature must be rejected: the same ring equation holds mod n, only the range check tells them apart
+            twins = 0
+            for j in range(pref[0]):
+                if pref[2][j] + N <= gens.M256 and twins < 4:
+                    tw = bytearray(sigb)
+                    tw[33 + 32 * j:65 + 32 * j] = ec.i2b(pref[2][j] + N)
+                    rp2, sig2 = lib_parse(env, bytes(tw))
+                    env.require(rp2 == 1, "parser rejected a well-formed signature string with a large scalar")
+                    g2 = lib_verify(env, sig2, on_arr, off_arr, nn, lib.pubkey_from_point(w_pt))
+                    env.require(g2 == 0, "whitelist_verify accepted the non-canonical re-encoding s+n of a valid signature (scalar index %d)" % j,
+                                sig=bytes(tw).hex()[:200])
+                    twins += 1
+            if twins:
+                classes.append("twin_of_valid_rejected")
     else:
         classes.append("parse_reject")
     if nn == 0:
@@ -347,6 +362,6 @@ def run_parse(env, case):
 TESTS = [
     Test("sign_verify", sign_case, run_sign, quick=320, thorough=12000, must_cover=["n=0", "n=1", "n=255", "ref_checked"]),
     Test("verify_strings", string_case, run_string, quick=900, thorough=40000,
-         must_cover=["base:forge_hash", "empty_list", "accept", "reject", "s_plus_n_twin", "ref_prover_ok"]),
+         must_cover=["base:forge_hash", "empty_list", "accept", "reject", "s_plus_n_twin", "ref_prover_ok", "twin_of_valid_rejected"]),
     Test("parse", parse_case, run_parse, quick=3000, thorough=60000, must_cover=["accept", "reject"]),
 ]
